@@ -60,6 +60,25 @@ def tag_tables(P, R):
     return r, sepch, idv, serv
 
 
+def _canonical(r, s, v, gs):
+    """the received text is compared (strcmp == 0) with the buffer the tag writer filled for the request returned"""
+    if not is_var(v):
+        return False
+    p0 = r.params[0]
+    bufs = set()
+    for t in r.calls('iauth_routing'):
+        a = t.ev['args']
+        if len(a) >= 2 and is_var(a[0], v['name']) and is_var(a[1]):
+            bufs.add(a[1]['name'])
+    for g in gs:
+        l = g[0]
+        if isinstance(l, dict) and l.get('k') == 'callref' and l.get('callee') in ('strcmp', 'memcmp') and g[1] == '==' and const_of(g[2]) == 0:
+            names = [x['name'] for x in l['args'][:2] if is_var(x)]
+            if p0 in names and any(b in names for b in bufs):
+                return True
+    return False
+
+
 def validated_return(P, R, r, sepch, idv, serv):
     rets = [(s, s.ev['val']) for s in r.sites() if s.ev['k'] == 'ret' and s.ev.get('val') is not None and const_of(s.ev['val']) != 0]
     # single-exit form: `found = NULL; ... if (all tests) found = req; return found;` - the non-null "return" is the place
@@ -86,8 +105,13 @@ def validated_return(P, R, r, sepch, idv, serv):
         end_ok = has(lambda g: g[0].get('k') in ('idx', 'un') and g[1] == '==' and const_of(g[2]) == 0)
         found_ok = is_var(v) and has(lambda g: is_var(g[0], v['name']) and g[1] == '!=' and const_of(g[2]) == 0)
         ser_ok = has(lambda g: g[1] == '==' and ((is_var(g[0], serv) and is_field(g[2], 'serial', core.REQ_REC)) or (is_var(g[2], serv) and is_field(g[0], 'serial', core.REQ_REC))))
+        canon_here = _canonical(r, s, v, gs)
         for nm, ok in (('the separator test', sep_ok), ('the end-of-string test', end_ok), ('a successful table lookup', found_ok), ('serial == req->serial', ser_ok)):
-            R.ob('C04.GRD.1', ok, s, 'the non-null return is dominated by %s' % nm, key='return:%s' % nm)
+            if canon_here and nm != 'a successful table lookup':
+                # the exact comparison with the writer's output for the request found implies it
+                R.ob('C04.GRD.1', True, s, 'the non-null return is dominated by %s (or by the comparison with the writer\'s own text, which implies it)' % nm, key='return:%s' % nm, nontrivial=ok)
+            else:
+                R.ob('C04.GRD.1', ok, s, 'the non-null return is dominated by %s' % nm, key='return:%s' % nm)
         # the library conversions are lenient (white space, signs, "0x", values that wrap into the compared width): a
         # text other than the one the writer produced must not name the instance, so the received text is compared
         # with the writer's own output for the request found
@@ -132,9 +156,10 @@ def validated_return(P, R, r, sepch, idv, serv):
         tv, tf = numeric.type_range(vtype(var) or ''), numeric.type_range(ft or '')
         if not tf:
             continue
-        R.ob('C04.GRD.1', bool(tv) and tv[0] <= tf[0] and tv[1] >= tf[1], r,
+        R.ob('C04.GRD.1', (bool(tv) and tv[0] <= tf[0] and tv[1] >= tf[1]) or all(_canonical(r, s_, v_, r.guards(s_.bid)) for s_, v_ in rets), r,
              'the parsed %s is held in a type (%s) that can represent every value of the request field it is compared with (%s)' % (what, vtype(var), ft), key='width:%s' % what)
     R.floor('C04.GRD.1', 5)
+    return bool(rets) and all(_canonical(r, s, v, r.guards(s.bid)) for s, v in rets)
 
 
 def tag_capacity(P, R, rule='C04.TAB.2'):
@@ -376,7 +401,16 @@ def lookup_skips(P, R, cl, rule='C04.GRD.3'):
     R.floor(rule, 2, 'skip edges of the reply lookup')
 
 
-def serial_writers(P, R):
+def reader_is_canonical(P):
+    from ..report import Remap
+    class _N(object):
+        def __getattr__(self, n):
+            return lambda *a, **k: True
+    r_, sepch, idv, serv = tag_tables(P, _N())
+    return validated_return(P, _N(), r_, sepch, idv, serv)
+
+
+def serial_writers(P, R, canonical=False):
     rd, disp = core.reader_dispatch(P)
     announce = [h for (s, h, vs) in disp if vs and ord('C') in vs]
     n = 0
@@ -391,8 +425,11 @@ def serial_writers(P, R):
             if is_field(lhs, 'serial', core.REQ_REC):
                 n += 1
                 rhs = s.ev.get('rhs')
-                ok = f in announce and rhs is not None and rhs.get('k') == 'un' and rhs['op'] == '++' and not rhs.get('postfix') and is_var(rhs['e'], 'iauth_serial')
-                R.ob('C04.WMC.2', ok, s, 'a request\'s serial is assigned once, from the pre-incremented counter', key='request-serial')
+                stepped = f in announce and rhs is not None and rhs.get('k') == 'un' and rhs['op'] == '++' and is_var(rhs['e'], 'iauth_serial')
+                # pre-increment keeps 0 - what a lenient reader makes of an empty number - out of use; a reader that
+                # compares the whole text with the writer's output does not need that
+                ok = stepped and (not rhs.get('postfix') or canonical)
+                R.ob('C04.WMC.2', ok, s, 'a request\'s serial is assigned once, from the stepped counter (never the value a lenient reader gives an empty number)', key='request-serial')
     # every announcement starts a new instance: apart from a short line, no path through the announce handler skips
     # the serial assignment (keeping the old record would hand its pending answers to whoever reuses the id)
     for h in announce:
@@ -419,11 +456,11 @@ def serial_writers(P, R):
 
 def run(P, R, tier):
     r, sepch, idv, serv = tag_tables(P, R)
-    validated_return(P, R, r, sepch, idv, serv)
+    canonical = validated_return(P, R, r, sepch, idv, serv)
     cl = lookup_discipline(P, R)
     effects_guarded(P, R, cl)
     lookup_skips(P, R, cl)
-    serial_writers(P, R)
+    serial_writers(P, R, canonical)
     tag_capacity(P, R)
     # the awaiting bit names a service by its slot: slots must not move under a pending client
     from ..report import Remap
